@@ -2,7 +2,7 @@
 GENERATED import list — regenerate with `python3 tools/gen_all_imports.py` (from /verif); do not edit the
 imports by hand. `python3 tools/gen_all_imports.py --check` fails if a module on disk is not imported here.
 
-Imports every module of the libraries QmcModel, QmcProofs, QmcProps (131 modules), so that
+Imports every module of the libraries QmcModel, QmcProofs, QmcProps (132 modules), so that
 `lake build QmcAll` certifies that the whole development type-checks in ONE environment: no two modules
 declare the same name (Lean: "environment already contains …"). See design_notes/Cleanup.md.
 
@@ -57,6 +57,7 @@ import QmcProofs.ClusterRelax
 import QmcProofs.ClusterScan
 import QmcProofs.Common
 import QmcProofs.CommonRand
+import QmcProofs.Composed
 import QmcProofs.Convert
 import QmcProofs.Cutoff
 import QmcProofs.Diagonal
@@ -146,3 +147,29 @@ import QmcProps.C20
 
 -- END GENERATED IMPORTS (tools/gen_all_imports.py); everything below is hand-written and kept
 
+/-! One environment: declarations of areas that used to exclude each other, side by side. -/
+
+-- C09 (Cluster) next to C06/C07 (Worldline), C04 (Loop), C16 (Interaction), C11 (FastOps), C12 (Cutoff), C08 (HeatBath)
+#check @Qmc.C09.clusterUpdate_is_clusterMove
+#check @Qmc.C06.step_pres
+#check @Qmc.C04.loopUpdate_pres
+#check @Qmc.C11.refine_step
+#check @Qmc.C12.headroom
+#check @Qmc.C08.detailed_balance_M
+#check @Qmc.Kernel.ising_timestep_invariant
+-- the names that used to be declared twice, each now exactly one declaration
+#check (Qmc.Leg : Type)              -- QmcModel/Loop.lean      (Cluster.lean's is `Qmc.ClLeg`)
+#check (Qmc.ClLeg : Type)
+#check @Qmc.occ                      -- QmcModel/Loop.lean      (FastOps.lean's are `Qmc.occAt`, `Qmc.occVAt`)
+#check @Qmc.occAt
+#check @Qmc.occVAt
+#check @Qmc.absR                     -- QmcModel/Common.lean
+#check @Qmc.maskSlots                -- QmcModel/Common.lean
+#check @Qmc.writeVars_length         -- QmcProofs/Common.lean
+#check @Qmc.genRangeF_nonneg         -- QmcProofs/CommonRand.lean
+-- the compositions that the clashes blocked (QmcProofs/Composed.lean)
+#check @Qmc.Composed.clusterUpdate_is_step
+#check @Qmc.Composed.isingTimestep_pres
+#check @Qmc.Composed.isingRun_inv
+#check @Qmc.Composed.genericTimestep_pres
+#check @Qmc.Composed.isingSpec_timestep_invariant
